@@ -292,23 +292,26 @@ fn check_single(ctx: &mut Ctx, r: &Rectangle, sizes: &[(u32, u32)], offsets: &[i
         }
     }
     // offset: every side moves by n while the rectangle does not collapse
+    // (the inherent method and the OffsetOutline trait method that generic code and the styled
+    // shapes' fill_area()/stroke_area() call are two implementations)
     for &n in offsets {
-        ctx.eval();
-        let o = r.offset(n);
-        let mo = M::of(&o);
-        let n = n as i64;
-        if m.w >= 1 && m.w + 2 * n >= 1 {
-            if mo.x != m.x - n || mo.w != m.w + 2 * n {
-                ctx.violation("rect|offset", case, || format!("offset({}) = {} (x axis)", n, fmt(&o)));
+        for (how, sig, o) in [("Rectangle::offset", "", r.offset(n)), ("OffsetOutline::offset", "|through-the-OffsetOutline-trait", embedded_graphics::primitives::OffsetOutline::offset(&*r, n))] {
+            ctx.eval();
+            let mo = M::of(&o);
+            let n = n as i64;
+            if m.w >= 1 && m.w + 2 * n >= 1 {
+                if mo.x != m.x - n || mo.w != m.w + 2 * n {
+                    ctx.violation(format!("rect|offset{}", sig), case, || format!("{}({}) = {} (x axis)", how, n, fmt(&o)));
+                }
             }
-        }
-        if m.h >= 1 && m.h + 2 * n >= 1 {
-            if mo.y != m.y - n || mo.h != m.h + 2 * n {
-                ctx.violation("rect|offset", case, || format!("offset({}) = {} (y axis)", n, fmt(&o)));
+            if m.h >= 1 && m.h + 2 * n >= 1 {
+                if mo.y != m.y - n || mo.h != m.h + 2 * n {
+                    ctx.violation(format!("rect|offset{}", sig), case, || format!("{}({}) = {} (y axis)", how, n, fmt(&o)));
+                }
             }
-        }
-        if m.w + 2 * n <= 0 && mo.w != 0 || m.h + 2 * n <= 0 && mo.h != 0 {
-            ctx.violation("rect|offset-collapse", case, || format!("offset({}) = {} should collapse to zero size", n, fmt(&o)));
+            if m.w + 2 * n <= 0 && mo.w != 0 || m.h + 2 * n <= 0 && mo.h != 0 {
+                ctx.violation(format!("rect|offset-collapse{}", sig), case, || format!("{}({}) = {} should collapse to zero size", how, n, fmt(&o)));
+            }
         }
     }
 }
